@@ -400,11 +400,17 @@ def run(pm, ctx):
                   % extra, key='C07-R9|StructTree|overrides')
     init = st.methods.get('__init__')
     if init is not None:
-        body_ = [n for n in init.node.body if not (isinstance(n, ast.Expr) and
-                                                  isinstance(n.value, ast.Constant))]
-        ctx.check('C07-R9', len(body_) == 1 and unparse(body_[0]) ==
-                  'super().__init__(definition)', 'bv.StructTree.__init__ only delegates',
-                  init.loc, msg='bv.StructTree.__init__ does more than delegate',
+        # everything the constructor does besides delegating: statements other than the
+        # docstring, the super().__init__ call and assignments of constants to locals
+        body_ = [n for n in init.node.body
+                 if not (isinstance(n, ast.Expr) and isinstance(n.value, ast.Constant))
+                 and not (isinstance(n, ast.Assign) and isinstance(n.value, ast.Constant) and
+                          all(isinstance(t, ast.Name) for t in n.targets))
+                 and unparse(n) != 'super().__init__(definition)']
+        delegates = any(unparse(n) == 'super().__init__(definition)' for n in init.node.body)
+        ctx.check('C07-R9', delegates and not body_,
+                  'bv.StructTree.__init__ only delegates', init.loc,
+                  msg='bv.StructTree.__init__ does more than delegate',
                   key='C07-R9|StructTree|init')
     vto = pm.func('stone.backends.python_rsrc.stone_validators.Struct.validate_type_only')
     pi_ = path_info(vto.node)
